@@ -636,7 +636,14 @@ func (c *Ctx2) session(s *Session) {
 	on, err1 := runImpl(c.Ctx, s, false)
 	offr, err2 := runImpl(c.Ctx, s, true)
 	if err1 != "" || err2 != "" {
-		c.Fail("harness:session-did-not-run", s.text(), err1+" / "+err2)
+		sig := "harness:session-did-not-run"
+		switch {
+		case strings.HasPrefix(err1, "panic") && err2 == "":
+			sig = "go-panic:cache-on-only" // e.g. "hash of unhashable type": the cache key is hashed as a whole Go value
+		case strings.HasPrefix(err1, "panic") || strings.HasPrefix(err2, "panic"):
+			sig = "go-panic:cache-on-and-off"
+		}
+		c.Fail(sig, s.text(), err1+" / "+err2)
 		return
 	}
 	lineOn, lineOff := s.caseLine(true), s.caseLine(false)
@@ -759,6 +766,11 @@ func corpus() []*Session {
 	})
 	mk("keycollision:statement-starts-with-prefix-operator", func(s *Session) {
 		s.Inputs = []*Expr{s.fn("f", []string{"p"}, raw("(if p {1} else {2})+3")), raw("f(true)"), s.fn("g", []string{"p"}, raw("if p {1} else {2}; +3")), raw("g(true)")}
+	})
+	// a sliced small map whose dropped pair holds a big array must still be usable as a cache key (direct oracle only)
+	mk("mech:sliced-small-map-as-key", func(s *Session) {
+		s.Inputs = []*Expr{raw(`m = {"a":1,"b":2,"c":[1,2,3,4,5,6,7,8,9]}`), raw(`f = func(x){println("in f", x); len(x)}`), raw("f(m[0:2])"), raw("f(m[0:2])"),
+			raw(`f({"a":1,"b":2})`), raw("a = [1,2,func(){1}]"), raw("f(a[0:2])"), raw("f([1,2])"), raw("f(rest(m))")}
 	})
 	// counted loops over an upper-case variable read by remembered functions (direct oracle only)
 	mk("mech:loop-over-constant-named-variable", func(s *Session) {
@@ -1782,6 +1794,49 @@ func (c *Ctx2) multiFile() {
 	}
 }
 
+// small maps (<= 4 pairs) and small arrays (<= 8 elements) obtained by slicing / rest / del / merge from containers whose
+// DROPPED pairs or elements hold values that cannot be (or must not be part of) a Go map key - big arrays, functions, big
+// maps, NaN, -0.0 -, passed twice as arguments to remembered functions. The language only reads [:len]; the cache hashes
+// the whole struct. Cache on vs off; a Go panic in either run is a failure. Raw grol: direct oracle only.
+func (c *Ctx2) smallContainerSession() *Session {
+	s := &Session{Tag: "random-small-container"}
+	r := c.R
+	big := "[1,2,3,4,5,6,7,8,9]"
+	junk := []string{big, "func(){1}", "{1:1,2:2,3:3,4:4,5:5}", "(0.0/0.0)", "-0.0", "[" + big + "]", "\"s\""}[r.Intn(7)]
+	s.Inputs = append(s.Inputs, raw(`fm = func(x){println("in fm", x); len(x)}`), raw(`fk = func(x, y){print("k"); [x, y]}`))
+	if r.Bool() { // maps
+		s.Inputs = append(s.Inputs, raw(`m = {"a":1,"b":2,"c":`+junk+`}`), raw(`m4 = {"a":1,"b":2,"c":`+junk+`,"d":4}`))
+		exprs := []string{"m[0:2]", "m[0:1]", "m4[1:2]", "m4[0:3]", "rest(m)", "rest(rest(m4))", "m[0:2]+{\"z\":0}", "{\"a\":1,\"b\":2}", "m4[0:2]", "m[1:2]"}
+		for i, n := 0, 5+r.Intn(5); i < n; i++ {
+			e := exprs[r.Intn(len(exprs))]
+			switch r.Intn(4) {
+			case 0:
+				s.Inputs = append(s.Inputs, raw("fk("+e+", 1)"))
+			case 1:
+				s.Inputs = append(s.Inputs, raw("t = "+e), raw("fm(t)"), raw("fm(t)"))
+			default:
+				s.Inputs = append(s.Inputs, raw("fm("+e+")"))
+			}
+		}
+		s.Inputs = append(s.Inputs, raw("del(m.c)"), raw("fm(m)"), raw("fm(m)"), raw("del(m4.c)"), raw("fm(m4)"), raw("fm(m4[0:2])"))
+		return s
+	}
+	s.Inputs = append(s.Inputs, raw("a = [1,2,"+junk+"]"), raw("a8 = [1,2,3,"+junk+",5,6,7,8]"))
+	exprs := []string{"a[0:2]", "a[0:1]", "a8[0:3]", "a8[4:8]", "rest(a)", "a[0:2]+[0]", "[1,2]", "a8[0:2]", "a[1:2]", "first(a8[2:3])"}
+	for i, n := 0, 5+r.Intn(5); i < n; i++ {
+		e := exprs[r.Intn(len(exprs))]
+		switch r.Intn(4) {
+		case 0:
+			s.Inputs = append(s.Inputs, raw("fk("+e+", 1)"))
+		case 1:
+			s.Inputs = append(s.Inputs, raw("t = "+e), raw("fm(t)"), raw("fm(t)"))
+		default:
+			s.Inputs = append(s.Inputs, raw("fm("+e+")"))
+		}
+	}
+	return s
+}
+
 func runC04(c0 *Ctx) {
 	c := &Ctx2{Ctx: c0, seen: map[string]int{}}
 	log.SetOutput(io.Discard)
@@ -1798,7 +1853,7 @@ func runC04(c0 *Ctx) {
 		"oracle: no call of such a writer or of its callers may appear in the cache); each run cache on and cache off on the implementation (direct oracle) and on the extracted model. " +
 		"non-trivial = distinct session that ends with a non-empty cache"
 	// every identifier the generator uses must be free in a fresh state (not an extension, not a predefined function)
-	for _, name := range []string{"f", "g", "h", "id", "mk", "a", "b", "c", "d", "w", "k", "x", "y", "t", "n", "m", "p", "q", "r", "s", "X", "N", "F", "fib", "f2", "k4", "v", "nx", "tw", "tt", "m", "vf", "wy", "A", "pick", "fa", "fb", "slow", "sc", "fr", "K", "LEVEL", "LIMIT", "base"} {
+	for _, name := range []string{"f", "g", "h", "id", "mk", "a", "b", "c", "d", "w", "k", "x", "y", "t", "n", "m", "p", "q", "r", "s", "X", "N", "F", "fib", "f2", "k4", "v", "nx", "tw", "tt", "m", "vf", "wy", "A", "pick", "fa", "fb", "slow", "sc", "fr", "K", "LEVEL", "LIMIT", "base", "fm", "fk", "m4", "a8"} {
 		st := eval.NewState()
 		st.Out, st.LogOut = io.Discard, io.Discard
 		res, _ := evalProtected(st, parser.New(lexer.New(name)).ParseProgram())
@@ -1835,7 +1890,9 @@ func runC04(c0 *Ctx) {
 			case 2:
 				c.session(c.impureResultSession())
 			default:
-				switch (i / 40) % 4 {
+				switch (i / 40) % 5 {
+				case 4:
+					c.session(c.smallContainerSession())
 				case 0:
 					c.session(c.bigArgSession())
 				case 1:
